@@ -34,6 +34,9 @@ pub struct ReParams {
     pub dup_in_set: bool,
     /// Maximum number of items in a bracket set.
     pub max_set_items: usize,
+    /// Ready-made atoms (typical classes of real lexers) and their weight.
+    pub extra_atoms: Vec<Re>,
+    pub w_extra: u32,
 }
 
 impl ReParams {
@@ -51,8 +54,29 @@ impl ReParams {
             size: 12,
             dup_in_set: true,
             max_set_items: 3,
+            extra_atoms: vec![],
+            w_extra: 0,
         }
     }
+}
+
+/// Classes as real lexers write them: identifier starts / continuations, hex digits, Latin-1
+/// letters, printable punctuation — with the exact pieces 0-9, A-F, A-Z, a-f, a-z next to others.
+pub fn typical_classes() -> Vec<Re> {
+    let r = |a: char, b: char| SetItem::R(a, b);
+    vec![
+        Re::Set(vec![r('a', 'z'), r('A', 'Z')]),
+        Re::Set(vec![r('A', 'Z'), r('a', 'z'), SetItem::C('_')]),
+        Re::Set(vec![r('a', 'z'), r('A', 'Z'), r('0', '9'), SetItem::C('_')]),
+        Re::Set(vec![r('0', '9'), r('a', 'f'), r('A', 'F')]),
+        Re::Set(vec![r('A', 'Z'), r('a', 'z'), r('\u{c0}', '\u{ff}')]),
+        Re::Set(vec![r('A', 'Z'), r('a', 'z'), r('{', '~')]),
+        Re::Set(vec![r('0', '9'), r('A', 'Z'), r('a', 'z'), r('\u{80}', '\u{10ffff}')]),
+        Re::Set(vec![r('0', '9')]),
+        Re::Set(vec![r(' ', '~')]),
+        Re::Set(vec![r('!', '/'), r(':', '@'), r('[', '`'), r('{', '~')]),
+        Re::Set(vec![SetItem::C(' '), SetItem::C('\t'), SetItem::C('\n')]),
+    ]
 }
 
 fn set_items(p: &ReParams) -> BoxedStrategy<Vec<SetItem>> {
@@ -142,6 +166,10 @@ pub fn re_strategy(p: &ReParams) -> BoxedStrategy<Re> {
         (
             p.w_builtin,
             select(builtins).prop_map(|n| Re::Builtin(n.to_string())).boxed(),
+        ),
+        (
+            if p.extra_atoms.is_empty() { 0 } else { p.w_extra },
+            select(if p.extra_atoms.is_empty() { vec![Re::Any] } else { p.extra_atoms.clone() }).boxed(),
         ),
     ]);
     leaf.prop_recursive(p.depth, p.size, 2, |inner| {
@@ -926,4 +954,45 @@ pub fn many_char_set(tape: &[u32], n: usize) -> Re {
         }
     }
     Re::Set(items)
+}
+
+
+/// Gives one rule the shape `p1 T | p2 T`: two alternatives with different heads and the SAME tail
+/// (separate copies of the tail's automaton that behave identically).
+pub fn shared_tails(spec: &mut Spec, tape: &[u32], chars: &[char]) {
+    let mut t = Tape::new(tape);
+    let mut rules = spec.rules_mut();
+    if rules.is_empty() || chars.is_empty() {
+        return;
+    }
+    let k = t.next(rules.len() as u32) as usize;
+    let mut atom = |t: &mut Tape| -> Re {
+        let c = chars[t.next(chars.len() as u32) as usize];
+        match t.next(4) {
+            0 => Re::Str(format!("{}{}", c, chars[t.next(chars.len() as u32) as usize])),
+            1 => plus(Re::Char(c)),
+            _ => Re::Char(c),
+        }
+    };
+    let mut head = |t: &mut Tape| -> Re {
+        match t.next(5) {
+            0 => alt(atom(t), atom(t)),
+            1 => cat(alt(atom(t), atom(t)), atom(t)),
+            2 => alt(cat(atom(t), atom(t)), cat(atom(t), atom(t))),
+            _ => atom(t),
+        }
+    };
+    let p1 = head(&mut t);
+    let mut p2 = head(&mut t);
+    if p2 == p1 {
+        p2 = cat(p2, Re::Char(chars[0]));
+    }
+    let tail = if t.next(2) == 0 { atom(&mut t) } else { cat(atom(&mut t), atom(&mut t)) };
+    let mut re = alt(cat(p1, tail.clone()), cat(p2, tail.clone()));
+    if t.next(2) == 1 {
+        re = alt(re, cat(cat(atom(&mut t), atom(&mut t)), tail));
+    }
+    if !rules[k].re.has_eoi() {
+        rules[k].re = re;
+    }
 }
